@@ -23,4 +23,16 @@ UpTo(k, maxLen) == {WithIds(l) : l \in UNION {Lists(k, len) : len \in 0..maxLen}
 McQuick    == UpTo(4, 2)
 McThorough == UpTo(6, 3)
 McSegs     == {1, 4, 11}
+
+\* the size sweep at model scale: EVERY body size 0..McSweepMax (well beyond ScratchCap), the tag under test followed
+\* by a small tag of another type so that a misaligned reader shows. An implementation boundary (a fast path, a
+\* scratch buffer) is wrong for a few sizes that no boundary-value matrix of the FORMAT contains.
+McSweepMax == 20
+SweepList(k) == WithIds(<< [t |-> 9, ts |-> <<1, 65794>>, n |-> k], [t |-> 8, ts |-> <<0, 3>>, n |-> 1] >>)
+McSweep    == {SweepList(k) : k \in 0..McSweepMax}
+\* the same sweep without the windows of the two scratch deviations (ScratchCap = 16: muxer 2..5, demuxer 13..16):
+\* there the deviations are invisible (MC_FlvFile_sweep_outside_*.cfg pass)
+McSweepOutsideMux   == {SweepList(k) : k \in (0..McSweepMax) \ (ScratchCap - 14 .. ScratchCap - 11)}
+McSweepOutsideDemux == {SweepList(k) : k \in (0..McSweepMax) \ (ScratchCap - 3 .. ScratchCap)}
+OneFlags   == {[video |-> TRUE, audio |-> FALSE]}
 =============================================================================
